@@ -19,16 +19,45 @@ attempt after a final outcome, verdict = last attempt, delays kept (never early)
 wait-after postpone and dispatch follow-ups exactly once, timeout both firing orders, fail-on,
 pause-before, ill-typed evaluated values give the declared error and nothing escapes.
 
-Self-test (scratch worktree, VERIF_REPO=/tmp/wt_C08 ./check C08), each gives a VIOLATION with its own signature /
-disagreement that the unchanged tree does not give:
-  M1 policies.py RetryPolicy: `retries_remain = retry_no <= self.count`          -> attempts-exceed-count+1
-  M2 policies.py RetryPolicy: break_triggered uses `states.SUCCESS`               -> attempt-after-final-outcome (break-on ignored)
-  M3 policies.py WaitAfterPolicy: job scheduled with `'state': states.SUCCESS`    -> verdict (ERROR attempt ends SUCCESS)
-  M4 policies.py _fail_task_if_incomplete: `if states.is_completed(...)` inverted -> timeout-fired-on-completed-task / timeout-not-applied
-  M5 policies.py FailOnPolicy: `if task.get_state() != states.ERROR: return`      -> fail-on-task-ends-SUCCESS
-  M6 base.py TaskPolicy._validate: exception swallowed (`pass`)                   -> ill-typed-value-accepted
-  M7 policies.py RetryPolicy: `run_after=0` in the continue job                   -> retry-delay-not-kept
-  M8 policies.py WaitBeforePolicy: skip flag not set                              -> correspondence (traces) + no oracle alarm needed
+Findings on the unchanged tree (each is a VIOLATION with its own signature until the lead fixes it or lists it in
+known_findings.json; witnesses are the first three CORPUS traces and the *_refuted theorems of Properties/C08.v):
+  stale-continue-job                 policies._continue_task does not check that the task is still delayed: after the timer
+                                     failed the task (or a forced failure) the retry / wait-before continue job still runs,
+                                     a completed task goes back to RUNNING, a further attempt starts, on-error is
+                                     dispatched twice (seen on the real engine too: retry count=1 delay=4, timeout=2)
+  stale-wait-after-job               policies._complete_task: the same for the wait-after job; after timeout + retry it
+                                     completes the task with the result of attempt 1 while attempt 2 is RUNNING
+  late-result-of-timed-out-attempt   _fail_task_if_incomplete leaves the attempt's action execution RUNNING; its late result
+                                     completes the task during the retry delay / the next attempt / the wait-after delay
+                                     (timeout undone: the task ends SUCCESS)
+Once such a root cause acted in a trace the rest of that trace is not judged (consequences of the same defect).
+A candidate fix (numbered delays + abandoning the running attempt on timeout) is in C08_proposed_fix.diff: with it the
+oracle is silent on 6000 search traces.
+Observations that are NOT reported as violations: wait-after is served only after the first completion of a retried task;
+wait-before is dropped when pause-before pauses first (the unit suite expects that); after a timeout-triggered retry no
+timer is armed for the new attempts; FailOnPolicy._schema names "fail-on" while the field is fail_on, so a non-boolean
+evaluated value is never rejected and is used by truthiness; a literal 0 / false at task level cannot switch a
+task-default off; RegularTask._get_timeout raises TypeError on an ill-typed evaluated timeout (reachable only through a
+stale continue job); `del policy_ctx['retry_no']` in RetryPolicy is never persisted (nested dict of a MutableDict column,
+no touch_runtime_context()), which is why the attempt bound holds even with the stale jobs.
+
+Self-test (scratch worktree, VERIF_REPO=/tmp/wt_C08_mut ./check C08; "new" = signatures the unchanged tree does not give;
+every one also breaks the correspondence):
+  M1  RetryPolicy `retries_remain = retry_no <= self.count`             new: attempts-exceed-count+1, attempt-after-final-outcome
+  M2  RetryPolicy break_triggered tests `states.SUCCESS`                new: retry-not-continued, final-state-differs-from-last-outcome
+  M3  WaitAfterPolicy job scheduled with `'state': states.SUCCESS`      new: wait-after-not-applied, success-without-successful-last-attempt
+  M4  _fail_task_if_incomplete condition inverted                       new: timeout-not-applied (+3)
+  M5  FailOnPolicy `if task.get_state() != states.ERROR: return`        new: fail-on-task-ends-SUCCESS (+3)
+  M6  TaskPolicy._validate swallows the schema error                    new: ill-typed-value-accepted, crash:TypeError
+  M7  RetryPolicy continue job `run_after=0`                            new: retry-delay-not-kept
+  M9  Task.complete: the `RUNNING_DELAYED: return` removed              new: follow-ups-dispatched-twice, wait-after-delay-not-kept
+  M10 get_policy_factories: retry before fail-on                        new: retry-not-continued (+2)
+  M11 RetryPolicy continue-on test inverted                             new: retry-not-continued (+3)
+  M12 construct_policies_list: task-defaults override the task level    new: *-delay-not-kept, attempts-exceed-count+1 (+6)
+  M13 RetryPolicy without touch_runtime_context() (retry_no not stored) new: attempts-exceed-count+1 (+2)
+  M14 Task.complete: "ignore if already completed" removed              new: completed-task-changed, follow-ups-dispatched-twice (+3)
+  M8  WaitBeforePolicy does not set its skip flag                       correspondence only (415 trace disagreements): the
+                                                                        flag matters for rerun (C12), no C08 clause fails
 """
 import contextlib
 import importlib
@@ -1209,13 +1238,20 @@ def trace_replay_obj(task, dflt, mode, events):
     return {'kind': 'trace', 'task_policies': task, 'task_defaults': dflt, 'schedule_mode': mode, 'events': events}
 
 
-def suite_traces(ctx, cases, tag='traces'):
-    """cases: list of dict(task, dflt, events|None, mode). Real run (generating the schedule when absent), oracle, model."""
+def suite_traces(ctx, cases, tag='traces', batch=1500):
+    """cases: list of dict(task, dflt, events|None, mode). Real run (generating the schedule when absent), oracle, model.
+    Processed in batches so that the recorded rows of a thorough run do not pile up in memory."""
+    for i in range(0, len(cases), batch):
+        _suite_traces(ctx, cases[i:i + batch], tag)
+
+
+def _suite_traces(ctx, cases, tag):
     rng = ctx.rng
     exprs, done = [], []
-    sigs = {}
+    s0 = ctx.cov['suites'].setdefault(tag, {'evaluations': 0, 'distinct_nontrivial': 0})
+    sigs = s0.setdefault('oracle_signatures', {})
     nev = 0
-    profiles = {}
+    profiles = s0.setdefault('profiles', {})
     for c in cases:
         task, dflt = c['task'], c['dflt']
         events, snaps, crash = run_trace_real(task, dflt, events=c.get('events'), rng=rng, mode=c.get('mode', 'due'),
@@ -1225,14 +1261,15 @@ def suite_traces(ctx, cases, tag='traces'):
         profiles[c.get('profile', 'corpus')] = profiles.get(c.get('profile', 'corpus'), 0) + 1
         for sig, what in oracle_trace(ctx, task, dflt, c.get('mode', 'due'), events, snaps, crash):
             sigs[sig] = sigs.get(sig, 0) + 1
-            ctx.fail(sig, what, trace_replay_obj(task, dflt, c.get('mode', 'due'), events))
+            if sigs[sig] <= 3:      # a few witnesses per signature are kept, all are counted
+                ctx.fail(sig, what, trace_replay_obj(task, dflt, c.get('mode', 'due'), events))
         exprs.append('trace (build %s %s) init %s' % (coq_pspec(task), coq_pspec(dflt), coq_list([coq_event(e) for e in events])))
         done.append((task, dflt, events, snaps, crash))
     res = coq_eval_packed('c08' + tag, exprs, 25)
-    attempts_hist = {}
+    attempts_hist = s0.setdefault('attempts_histogram', {})
     for (task, dflt, events, snaps, crash), model in zip(done, res):
         impl = [flat_view(post) for _, post in snaps]
-        na = len(snaps[-1][1]['acts']) if snaps else 0
+        na = str(len(snaps[-1][1]['acts']) if snaps else 0)
         attempts_hist[na] = attempts_hist.get(na, 0) + 1
         ctx.count(tag, (repr(task), repr(dflt), repr(events)), nontrivial=len(events) > 2, evaluations=len(events))
         ctx.cov['disagreements_checked'] += len(events)
@@ -1243,11 +1280,7 @@ def suite_traces(ctx, cases, tag='traces'):
             k = next((i for i in range(min(len(model), len(impl))) if model[i] != impl[i]), min(len(model), len(impl)))
             ctx.disagree(tag, {'task': task, 'defaults': dflt, 'events': events[:k + 1], 'first_difference_at_event': k + 1},
                          model[k] if k < len(model) else None, impl[k] if k < len(impl) else None)
-    s = ctx.cov['suites'].setdefault(tag, {})
-    s['events'] = nev
-    s['profiles'] = profiles
-    s['attempts_histogram'] = {str(k): v for k, v in sorted(attempts_hist.items())}
-    s['oracle_signatures'] = sigs
+    s0['events'] = s0.get('events', 0) + nev
     if done:
         ctx.sample({'suite': tag, 'task': done[-1][0], 'defaults': done[-1][1], 'events': done[-1][2]})
 
@@ -1289,11 +1322,14 @@ def run(ctx):
 def search(ctx):
     """Widened oracle-only search (no model)."""
     rng = ctx.rng
+    seen = {}
     with installed():
         for c in gen_cases(ctx, 6000):
             events, snaps, crash = run_trace_real(c['task'], c['dflt'], rng=rng, mode=c['mode'], max_events=36)
             for sig, what in oracle_trace(ctx, c['task'], c['dflt'], c['mode'], events, snaps, crash):
-                ctx.fail(sig, what, trace_replay_obj(c['task'], c['dflt'], c['mode'], events))
+                seen[sig] = seen.get(sig, 0) + 1
+                if seen[sig] <= 3:
+                    ctx.fail(sig, what, trace_replay_obj(c['task'], c['dflt'], c['mode'], events))
 
 
 def _untuple(d):
